@@ -275,6 +275,8 @@ class Specs:
         (table if table is not None else self.funcs)[node.name] = f
 
     def _load_contract(self, node, args, kw):
+        import copy
+        kw = {k: (ast.Constant(self.consts[v.id][1]) if isinstance(v, ast.Name) and v.id in self.consts else v) for k, v in kw.items()}
         c = Contract(ast.literal_eval(args[0]), node)
         c.name = ast.literal_eval(kw['name']) if 'name' in kw else 'main'
         c.props = ast.literal_eval(kw['props']) if 'props' in kw else []
